@@ -125,11 +125,26 @@ def eqOp (refSeq segSeq : List Nat) (c : PCol) (o : Op) : Except Err Op :=
   | (none, some s) => if s < segSeq.length then .ok o else .error .indexError
   | (none, none) => .ok o
 
+/-- `l = a, a+1, a+2, …` -/
+def consecFrom : Nat → List Nat → Bool
+  | _, [] => true
+  | a, b :: r => b == a && consecFrom (a + 1) r
+
+/-- `np.all(np.diff(indices) == 1)`: the positions are consecutive -/
+def rowContig : List Nat → Bool
+  | [] => true
+  | a :: r => consecFrom (a + 1) r
+
+/-- the reference and the segment positions of the trace are consecutive (check added by fix b62f18f5: a CIGAR cannot
+describe skipped positions) -/
+def contigB (t : PTrace) : Bool := rowContig (t.filterMap (·.1)) && rowContig (t.filterMap (·.2))
+
 /-- per-column operations of `write_alignment_to_cigar` (before aggregation). -/
 def columnOps (o : WOpts) (refSeq segSeq : List Nat) (t : PTrace) : Except Err (List Op) :=
   match mapE colOp t with
   | .error e => .error e
   | .ok ops =>
+    if !contigB t then .error .valueError else
     if o.introns.any (fun (a, b) => decide (a ≥ b) || decide (a < 0)) then .error .valueError else
     if (t.zip ops).any (fun (c, op) => inIntron o.introns c && op != .D) then .error .valueError else
     let ops2 := (t.zip ops).map fun (c, op) => if inIntron o.introns c then Op.N else op
